@@ -11,6 +11,9 @@ pub mod functor;
 pub mod graph;
 pub mod layer;
 
+#[cfg(feature = "verif-hooks")]
+pub mod verif_hooks;
+
 pub use crate::array::*;
 pub use crate::category::*;
 pub use crate::finite_function::FiniteFunction;
